@@ -26,6 +26,20 @@ CLAIMS = {
         design="§7 C17",
         note=TB + "Modelled not verified: str methods (ASCII), literal_eval/int()/float() on the value grammar; float(repr(x)) == x is CPython's.",
     ),
+    "C01": dict(
+        technique="Lean 4 theorems on a statement-level model of the ReST emitter/scanner/parser + differential run; numpydoc/google by property predicate on the code",
+        text=(
+            "Kernel-checked: scanRest_spec_cons (the hand-rolled ReST scanner equals its specification on any token-clean "
+            "text, unbounded) and C01_rest_nodefault_partial (emit->parse = identity for every summary and every non-empty "
+            "list of typed, described, default-free parameters; induction over parameters and characters) about a "
+            "statement-by-statement model of emit.docstring(rest)/_scan_phase_rest/_parse_phase_rest; the C17 theorems cover "
+            "the default sentence. The model is run against the code on every generated IR and on mutated text. For "
+            "numpydoc and google there is no Lean model yet: the round-trip predicate is evaluated on the real code only "
+            "(partial). Seven recorded finding classes delimit the domain on which the property holds today."
+        ),
+        design="§7 C01",
+        note=TB + "numpydoc/google are not modelled (predicate on the code only); word_wrap=False here (wrapping is C18).",
+    ),
 }
 
 PENDING_REASON = "check not built yet in this round (work in progress; see DESIGN.md §10 build order) — not a claim that the technique cannot apply"
